@@ -137,8 +137,26 @@ class Ctx:
             res = list(ex.map(run_chunk, chunks))
         return [x for r in res for x in r]
 
-    def run_model(self, lines):
-        p = subprocess.run([self.model_exe(), self.sc.path('dump.bin'), self.sc.path('dump.idx')],
+    def build_prdrv(self):
+        """build-time driver (harness/prdrv.c) + dump of the RAW tables as prdata holds them"""
+        t = time.time()
+        self.prdrv = cbuild.build_prdrv(self.sc, self.sc.path('aux'), REPO)
+        p = subprocess.run([self.prdrv, REPO, '--dump', self.sc.path('pdump.bin'), self.sc.path('pdump.idx'), self.sc.path('lens.txt')],
+                           capture_output=True, text=True)
+        if p.returncode != 0:
+            raise BuildError('prdata-phase dump failed: ' + p.stderr[-2000:])
+        self.tick('prdrv', t)
+
+    def run_prdrv(self, lines):
+        class A: pass
+        exe = self.sc.path('prdrv.sh')
+        if not os.path.exists(exe):
+            with open(exe, 'w') as f: f.write('#!/bin/sh\nexec %s %s\n' % (self.prdrv, REPO))
+            os.chmod(exe, 0o755)
+        return self.run_c(lines, exe=exe, chunk=20000)
+
+    def run_model(self, lines, dump='dump'):
+        p = subprocess.run([self.model_exe(), self.sc.path(dump + '.bin'), self.sc.path(dump + '.idx')],
                            input='\n'.join(lines) + '\n', capture_output=True, text=True)
         if p.returncode != 0:
             raise BuildError('model driver failed: ' + p.stderr[-2000:])
